@@ -328,7 +328,7 @@ class C14(Property):
         samp = rng.choice([0.1, 0.125, 0.2, 0.25])
         c = {"aseed": rng.randint(0, 10 ** 6), "gpts": gpts, "sampling": [samp, rng.choice([samp, samp, 0.15])],
              "energy": rng.choice([60e3, 100e3, 200e3, 300e3]), "ens": rng.choice([[], [], [2], [2, 2]]),
-             "semi": rng.choice([None, None, 10.0, 25.0]), "lazy": rng.random() < 0.15,
+             "semi": rng.choice([None, None, 10.0, 25.0]), "lazy": rng.random() < 0.3,
              "parity": rng.choice(["odd", "odd", "even", "same", "none"]),
              "max_angle": rng.choice(["cutoff", "valid", "full", "num", "num", "numbig"])}
         c["angle_frac"] = dyadic(rng, 0.125, 1, 3)
@@ -356,6 +356,15 @@ class C14(Property):
         a_s, a_n = arr_of(ds), arr_of(dn)
         m = a_s.shape[-2:]
         ok = True
+        if hasattr(ds.array, "dask") and hasattr(dn.array, "dask"):
+            # lazy patterns that differ only in one option, computed in ONE graph (what ComputableList.compute / abtem.compute do), must be
+            # what each gives on its own: dask merges tasks with equal names (round-3 seed C14-r3 named the task without `fftshift`)
+            import dask
+            j_s, j_n, j_f = dask.compute(ds.array, dn.array, full.array if hasattr(full.array, "dask") else a_full)
+            ctx.count("conf-lazy-joint-graph")
+            if not (np.array_equal(np.asarray(j_s), a_s) and np.array_equal(np.asarray(j_n), a_n) and np.array_equal(np.asarray(j_f), a_full)):
+                ctx.violation("lazy-patterns-computed-in-one-graph-differ", c, {"shifted_equal": bool(np.array_equal(np.asarray(j_s), a_s)),
+                                                                              "unshifted_equal": bool(np.array_equal(np.asarray(j_n), a_n))}); ok = False
         # requested parity (angle-limited patterns only)
         if c["max_angle"] != "full" and c["parity"] != "none":
             want = {"odd": (1, 1), "even": (0, 0), "same": (c["gpts"][0] % 2, c["gpts"][1] % 2)}[c["parity"]]
